@@ -69,6 +69,9 @@ func (m *Machine) readerDrain(r Iface) (data *SliceV, err Value) {
 	case *Opaque:
 		if f, ok := x.X.(*fileModel); ok {
 			out := &SliceV{A: []Value{}}
+			if f.closed {
+				return out, m.errorValue("read " + f.name + ": file already closed")
+			}
 			if !f.drained {
 				out.A = append(out.A, f.content...)
 			}
@@ -103,10 +106,11 @@ type fileModel struct {
 	content []Value // byte values / blobs
 	drained bool
 	closed  bool
+	spilled bool // larger than ParseMultipartForm's memory limit: backed by a temporary *os.File, whose Close is not a no-op
 }
 
 func (f *fileModel) hashInto(h *hasher) {
-	fmt.Fprintf(&h.sb, "file(%s,%v,%v,%d)", f.name, f.drained, f.closed, len(f.content))
+	fmt.Fprintf(&h.sb, "file(%s,%v,%v,%v,%d)", f.name, f.drained, f.closed, f.spilled, len(f.content))
 }
 
 type multipartModel struct {
@@ -362,6 +366,37 @@ func init() {
 		m.side[req] = &Opaque{Kind: "multipartform", X: mm}
 		return nil
 	})
+	// verifSpillFiles(req): the files of the request are larger than the in-memory limit of
+	// ParseMultipartForm, i.e. FormFile hands out temporary *os.File objects: Close really closes them
+	R("verifSpillFiles", func(m *Machine, a []Value) Value {
+		if o, ok := m.side[a[0].(Ptr)].(*Opaque); ok && o.Kind == "multipartform" {
+			for _, f := range o.X.(*multipartModel).files {
+				f.spilled = true
+			}
+		}
+		return nil
+	})
+	fileClose := func(m *Machine, a []Value) Value {
+		var cell Value = a[0]
+		if p, ok := cell.(Ptr); ok && p != nil {
+			cell = *p
+		}
+		if o, ok := cell.(*Opaque); ok {
+			if f, ok := o.X.(*fileModel); ok {
+				if f.spilled {
+					if f.closed {
+						return m.errorValue("close " + f.name + ": file already closed")
+					}
+					f.closed = true
+				}
+				return Iface{}
+			}
+		}
+		m.fail("unsupported", "Close of an unmodelled multipart file")
+		return nil
+	}
+	R("(*mime/multipart.sectionReadCloser).Close", fileClose)
+	R("(mime/multipart.sectionReadCloser).Close", fileClose)
 	R("(*net/http.Request).ParseMultipartForm", func(m *Machine, a []Value) Value {
 		req := a[0].(Ptr)
 		o, ok := m.side[req].(*Opaque)
@@ -402,7 +437,7 @@ func init() {
 		h := newCell(zero(ht))
 		m.setField(h, ht, "Filename", f.name)
 		// every FormFile call opens the part anew
-		nf := &fileModel{name: f.name, content: f.content}
+		nf := &fileModel{name: f.name, content: f.content, spilled: f.spilled}
 		m.native[fmt.Sprintf("file%d", len(m.native))] = nf
 		return Tuple{Iface{T: ft, V: newCell(&Opaque{Kind: "file", X: nf})}, h, Iface{}}
 	})
